@@ -106,3 +106,7 @@ open Csproto
 #print axioms Csproto.C01.Source.source_roundtrip_packed_int64
 #print axioms Csproto.Bridge.PackedEncFuncs.bool_loop
 #print axioms Csproto.Bridge.PackedEncFuncs.EncodePackedBool_refines
+#print axioms Csproto.C01.Source.source_roundtrip_packed_uint32
+#print axioms Csproto.C01.Source.source_roundtrip_packed_sint32
+#print axioms Csproto.C01.Source.source_roundtrip_int64
+#print axioms Csproto.C01.Source.source_roundtrip_int32
